@@ -76,6 +76,7 @@ type GenOpts struct {
 	ActionTime         int
 	VaryMinCount       bool // table minimum player count 2..4 instead of always 2
 	ZeroActionTime     bool // action time 0 (ActionTime 0 above means 'default')
+	Whales             bool // every stack lies above 2^53 and is odd (not representable as a float64): chips must stay exact integers
 	MTTPastDuration    bool // half of the mtt tables are already past their maximum duration (which only ends ct / cash tables)
 }
 
@@ -165,6 +166,11 @@ func GenTable(r *rand.Rand, o GenOpts) TableCfg {
 			chips = unit*50 + r.Int63n(unit*150)
 		}
 		c.Players = append(c.Players, PlayerCfg{ID: fmt.Sprintf("p%d", i), Seat: perm[i], Chips: chips})
+	}
+	if o.Whales {
+		for i := range c.Players {
+			c.Players[i].Chips += 1<<53 + 1 + 2*r.Int63n(1000)
+		}
 	}
 	if o.MTTPastDuration && c.Mode == "mtt" && r.Intn(2) == 0 {
 		c.MaxDuration = -1
